@@ -407,7 +407,7 @@ def mem0(case, a):
 
 
 def gen_rw_case(rng):
-    buf = rng.choice([4, 5, 7, 8, 16, 64, 256])
+    buf = rng.choice([4, 5, 7, 8, 16, 64, 256]) if rng.random() < 0.6 else rng.randrange(4, 600)    # every size
     n_tries = rng.choice([1, 2, 3, 3, 5])
     timeout = rng.choice([2, 3, 4])
     window = rng.choice([1, 1, 2, 3, 4, 8])
